@@ -209,6 +209,60 @@ fn install_failure() -> String {
     }
 }
 
+// ---- the REAL install path end to end, one script per process (the global recorder is process-wide):
+// `GLOBAL <op> ...`: I<r> = RecoverableRecorder::new(double r).install() on the main thread, J<r> the
+// same on a fresh thread, E / F = one emission through the GLOBAL recorder (metrics::with_recorder)
+// on the main / a fresh thread, R = into_inner of the live handle, H = drop the live handle.
+// tokens: K<r> installed | X<r>[!x] install failed handing recorder r back (intact unless !x) |
+// V<r>:<method ok 0/1> emission reached double r | N emission reached nobody | R<r>:<drops> | H<drops of the live double>
+thread_local! { static GREACHED: Cell<(u64, u8)> = Cell::new((0, 0)); }
+struct GDbl { id: u64, drops: Arc<AtomicU64> }
+impl GDbl { fn hit(&self, m: u8) { GREACHED.with(|r| r.set((self.id, m))); } }
+impl Drop for GDbl { fn drop(&mut self) { self.drops.fetch_add(1, SeqCst); } }
+impl Recorder for GDbl {
+    fn describe_counter(&self, _: KeyName, _: Option<Unit>, _: SharedString) { self.hit(1) }
+    fn describe_gauge(&self, _: KeyName, _: Option<Unit>, _: SharedString) { self.hit(3) }
+    fn describe_histogram(&self, _: KeyName, _: Option<Unit>, _: SharedString) { self.hit(5) }
+    fn register_counter(&self, _: &Key, _: &Metadata<'_>) -> Counter { self.hit(2); Counter::noop() }
+    fn register_gauge(&self, _: &Key, _: &Metadata<'_>) -> Gauge { self.hit(4); Gauge::noop() }
+    fn register_histogram(&self, _: &Key, _: &Metadata<'_>) -> Histogram { self.hit(6); Histogram::noop() }
+}
+fn gemit(k: usize) -> String {
+    GREACHED.with(|r| r.set((0, 0)));
+    metrics::with_recorder(|rec| emit(rec, k));
+    let (id, m) = GREACHED.with(|r| r.get());
+    if id == 0 { "N".to_string() } else { format!("V{}:{}", id, if m as usize == k % 6 + 1 { 1 } else { 0 }) }
+}
+fn global_script(ops: &str) -> String {
+    metrics::__verif::set_callback(None);
+    let mut out: Vec<String> = Vec::new();
+    let mut live = None; // Option<(RecoveryHandle<GDbl>, drop counter)>: the handle type is not nameable from outside the crate
+    let mut k = 0usize;
+    for op in ops.split_whitespace() {
+        let (c, rest) = op.split_at(1);
+        k += 1;
+        let tok = match c {
+            "I" | "J" => {
+                let r: u64 = rest.parse().unwrap();
+                let drops = Arc::new(AtomicU64::new(0));
+                let d = GDbl { id: r, drops: drops.clone() };
+                let res = if c == "I" { RecoverableRecorder::new(d).install() } else { std::thread::spawn(move || RecoverableRecorder::new(d).install()).join().unwrap() };
+                match res {
+                    Ok(h) => { live = Some((h, drops)); format!("K{}", r) }
+                    Err(e) => { let d = e.into_inner(); let ok = d.id == r && drops.load(SeqCst) == 0; let s = format!("X{}{}", d.id, if ok { "" } else { "!x" }); drop(d); s }
+                }
+            }
+            "E" => gemit(k),
+            "F" => std::thread::spawn(move || gemit(k)).join().unwrap(),
+            "R" => match live.take() { Some((h, drops)) => { let d = h.into_inner(); let s = format!("R{}:{}", d.id, drops.load(SeqCst)); drop(d); s } None => "R-".to_string() },
+            "H" => match live.take() { Some((h, drops)) => { drop(h); format!("H{}", drops.load(SeqCst)) } None => "H-".to_string() },
+            _ => panic!("bad global op"),
+        };
+        out.push(tok);
+    }
+    out.join(" ")
+}
+
 // only this property's own yield sites take part in the schedule: instrumented code of other
 // properties reached from here (e.g. Key::get_hash under a registry lock) must pass through
 fn own_site(site: u32) -> bool { (2001..=2006).contains(&site) }
@@ -221,6 +275,7 @@ fn main() {
     for line in stdin.lock().lines() {
         let line = line.unwrap();
         if line.trim().is_empty() { continue; }
+        if let Some(rest) = line.trim().strip_prefix("GLOBAL") { writeln!(w, "{}", global_script(rest)).unwrap(); continue; }
         if line.trim() == "INSTALL-FAILURE" { writeln!(w, "{}", install_failure()).unwrap(); continue; }
         if let Some(rest) = line.trim().strip_prefix("STRESS") {
             let v: Vec<&str> = rest.split_whitespace().collect();
